@@ -82,7 +82,8 @@ def proof_files(tier):
     return (["C09_spec.v", "C09_minor.v", "C09_A_defs.v", "C09_A_tac.v", "C09_A_reduce.v", "C09_A_construct.v",
              "C09_A_ops.v", "C09_angle.v", "C09_geo.v", "C09_tac.v", "C09_body.v", "C09_J_tac.v", "C09_J_jde.v"]
             + ["C09_pl_%s.v" % p for p in PLANETS]
-            + ["C09_planets.v", "C09_mbody.v", "C09_mgeo.v", "C09_pluto.v", "C09.v"])
+            + ["C09_planets.v"] + ["C09_pa_%s.v" % p for p in PLANETS]
+            + ["C09_mbody.v", "C09_mgeo.v", "C09_pluto.v", "C09.v"])
 
 
 # ----------------------------------------------------------------------------------------------
@@ -414,6 +415,22 @@ def gen_minor(rng, e=None, near=False):
     return (float(q), float(e), float(inc), float(om), float(w), float(tp)), float(tp + dt)
 
 
+def parabolic_bodies(rng, n):
+    """exactly parabolic bodies (e == 1.0), q in 0.1..1.5 AU, epochs within +-30 d of perihelion: the
+    only inputs that reach the Barker branch of Minor.geocentric_position; a fixed grid first, then random"""
+    out = []
+    fixed = [(0.1, 0.0, 0.0, 0.0, 3.0), (0.1, 0.0, 0.0, 0.0, -9.75), (0.3, 30.0, 40.0, 50.0, 3.0), (0.5, 120.0, 200.0, 310.0, -12.5),
+             (1.0, 0.0, 0.0, 0.0, 10.0), (1.0, 60.0, 10.0, 95.0, -25.0), (1.5, 15.0, 300.0, 20.0, 28.0), (0.2, 170.0, 90.0, 180.0, 0.5)]
+    for q, inc, om, w, dt in fixed[:n]:
+        out.append(((q, 1.0, inc, om, w, 2450917.9358), 2450917.9358 + dt))
+    while len(out) < n:
+        q = round(math.exp(rng.uniform(math.log(0.1), math.log(1.5))), 6)
+        tp = round(2451545.0 + rng.uniform(-36525, 36525), 3)
+        out.append(((float(q), 1.0, round(rng.uniform(0, 180), 4), round(rng.uniform(0, 360), 4), round(rng.uniform(0, 360), 4), float(tp)),
+                    float(tp + round(rng.uniform(-30, 30), 3))))
+    return out
+
+
 def minor_expr(el, jde, meth="geocentric_position"):
     q, e, inc, om, w, tp = el
     return "Minor(%r, %r, Angle(%r), Angle(%r), Angle(%r), Epoch(%r)).%s(Epoch(%r))" % (q, e, inc, om, w, tp, meth, jde)
@@ -422,26 +439,32 @@ def minor_expr(el, jde, meth="geocentric_position"):
 def cases(rng, tier):
     quick = tier == "quick"
     cs = []
-    for p in PLANETS:
-        for _ in range(1 if quick else 3):
-            cs.append("%s.geocentric_position(Epoch(%r))" % (p, gen_jde(rng)))
+    if quick:
+        # planet calls carry ~20k traced libm values each: three per quick run
+        cs.append("%s.geocentric_position(Epoch(%r))" % (rng.choice(PLANETS), gen_jde(rng)))
+    else:
+        for p in PLANETS:
+            for _ in range(3):
+                cs.append("%s.geocentric_position(Epoch(%r))" % (p, gen_jde(rng)))
     cs.append("Venus.geocentric_position(Epoch(1992, 12, 20.0))")
     cs.append("Neptune.geocentric_position(Epoch(1992, 12, 20.0))")
-    for _ in range(4 if quick else 40):
+    for _ in range(2 if quick else 40):
         cs.append("Pluto.geocentric_position(Epoch(%r))" % gen_pluto_jde(rng))
-    for _ in range(4 if quick else 20):
+    for _ in range(1 if quick else 20):
         cs.append("Pluto.geometric_heliocentric_position(Epoch(%r))" % gen_pluto_jde(rng))
     cs += ["Pluto.geocentric_position(Epoch(1884, 6, 1.0))", "Pluto.geometric_heliocentric_position(Epoch(2100, 1, 1.0))",
            "Pluto.geocentric_position(Epoch(1992, 10, 13.0))", "Pluto.geocentric_position(2448908.5)",
            "Venus.geocentric_position(2451545.0)", "Minor(1.0, 0.5, 10.0, Angle(0.0), Angle(0.0), Epoch(2451545.0))",
            "Minor(1, 0.5, Angle(10.0), Angle(0.0), Angle(0.0), Epoch(2451545.0))"]
-    for _ in range(40 if quick else 600):
+    for _ in range(24 if quick else 600):
         el, jde = gen_minor(rng)
         cs.append(minor_expr(el, jde))
-    for _ in range(15 if quick else 150):
+    for el, jde in parabolic_bodies(rng, 4 if quick else 40):
+        cs.append(minor_expr(el, jde))
+    for _ in range(6 if quick else 150):
         el, jde = gen_minor(rng, e=round(rng.uniform(0, 0.97), 6))
         cs.append(minor_expr(el, jde, "heliocentric_ecliptical_position"))
-    for _ in range(25 if quick else 250):
+    for _ in range(12 if quick else 250):
         q = round(math.exp(rng.uniform(math.log(0.1), math.log(30.0))), 6)
         e = rng.choice([0.98, 0.99, 0.999, 1.0 - 1e-9, 1.0, 1.0 - 1e-10, 1.00001, 1.05731, 0.9672746])
         t = rng.choice([0.0, 1e-11, -1e-11]) if rng.random() < 0.15 else round(rng.uniform(-1, 1) * (40.0 * q ** 1.5 + 20.0), 4)
@@ -491,6 +514,10 @@ def search(rng, tier, deep):
         el, jde = gen_minor(rng)
         n += 1; nontriv += 1
         add(check_minor(I, el, jde, stats_extra), ["Minor", list(el), jde], "minor %s %r" % (" ".join(repr(x) for x in el), jde))
+    # always: exactly parabolic bodies near perihelion (the Barker branch is reached by e == 1.0 only)
+    for el, jde in parabolic_bodies(rng, 400 if full else 40):
+        n += 1; nontriv += 1
+        add(check_minor(I, el, jde, stats_extra), ["Minor", list(el), jde], "minor %s %r" % (" ".join(repr(x) for x in el), jde))
     for _ in range(1500 if full else 150):
         el, jde = gen_minor(rng, e=round(rng.uniform(0, 0.97), 6))
         n += 1; nontriv += 1
@@ -515,7 +542,7 @@ def search(rng, tier, deep):
         n += 1; nontriv += 1
         add(check_near_parabolic(I, q, e, t, stats_extra), ["Minor._near_parabolic", q, e, t], "nearpar %r %r %r" % (q, e, t))
     stats = {"evaluations": n, "distinct_nontrivial": nontriv,
-             "rule": "7 planets x %d epochs in -2000..4000 (direction vs library vectors 0.02 deg, elongation vs Sun at epoch and at epoch-tau, range, Mercury/Venus maxima, Epoch unchanged); Pluto 1885-2099 (1e-4 deg, series re-evaluated); minor bodies q 0.1-30, e in [0,1] incl. 0.98/1.0 +-1e-9, any orientation, +-50 yr (1e-4 deg vs independent two-body propagation, elongation, switch-point continuity, _near_parabolic (v,r))" % (npl + 1),
+             "rule": "7 planets x %d epochs in -2000..4000 (direction vs library vectors 0.02 deg, elongation vs Sun at epoch and at epoch-tau, range, Mercury/Venus maxima, Epoch unchanged); Pluto 1885-2099 (1e-4 deg, series re-evaluated); minor bodies q 0.1-30, e in [0,1] incl. 0.98/1.0 +-1e-9, any orientation, +-50 yr, plus a fixed grid + random sample of exactly parabolic bodies (e = 1.0, q 0.1-1.5, +-30 d) (1e-4 deg vs independent two-body propagation, elongation, switch-point continuity, _near_parabolic (v,r))" % (npl + 1),
              "samples": [{"input": ["Neptune", 2448976.5], "checked": "direction within 0.02 deg of Earth(t)->Neptune(t-tau); elongation vs Sun(t) [known finding] and Sun(t-tau)"}],
              "per_key_counts": per_key, "near_parabolic_no_convergence_refusals": stats_extra.get("no_convergence", 0),
              "exhaustive_search": False}
